@@ -196,3 +196,15 @@ func VerifC11_Compare(cs int) {
 		VsAssert("same-matching-as-the-sequential-run", vC11Text(seq) == vC11Text(pairs))
 	}
 }
+
+// VerifC11_Races: the comparison with 2 and 3 jobs under the happens-before monitor: every pair of
+// conflicting accesses to a struct field, slice element, global or map that no synchronisation
+// orders is reported (class = the location). cs%8 = scenario, cs/8%2 = Jobs 2 or 3.
+func VerifC11_Races(cs int) {
+	scenario, jobs := cs%8, cs/8%2+2
+	left, right, family := vC11Inputs(scenario)
+	d := NewSimilarityOptions()
+	pairs, _ := vC11Run(left, right, family, jobs, d.MinimumWeightedSimilarity, d.PreferPointerAbove)
+	VsObserve(len(pairs))
+	VsReach("compared-under-the-race-monitor")
+}
